@@ -42,25 +42,47 @@ def obligations(tier, kf):
     obs = []
     if q:
         for m in range(16):
-            obs.append(Ob('c_check_cache', {'NF': 1, 'cached': [m]}, 600,
+            obs.append(Ob('c_check_cache', dict(kf, NF=1, cached=[m]), 600,
                           desc='1 filter, cached categories mask %d' % m))
     else:
         for m in range(16):
             for m2 in (0, 6, 9, 15):     # second filter: nothing / two complementary pairs / all
-                obs.append(Ob('c_check_cache', {'NF': 2, 'cached': [m, m2]}, 1500,
+                obs.append(Ob('c_check_cache', dict(kf, NF=2, cached=[m, m2]), 1500,
                               desc='2 filters, cached masks %d,%d' % (m, m2)))
-    obs.append(Ob('c_check_cache', {'NF': 1, 'cached': [4]}, 120).twin())
-    obs.append(Ob('c_check_cache', {'NF': 1, 'cached': [4]}, 300).mutant('regen_ignores_extra'))
-    obs.append(Ob('c_check_cache', {'NF': 1, 'cached': [0]}, 300).mutant('regen_min_of_inputs'))
-    obs.append(Ob('c_check_cache', {'NF': 1, 'cached': [0]}, 300).mutant('check_cache_replays_when_inputs_newer'))
-    obs.append(Ob('c_check_cache', {'NF': 1, 'cached': [0]}, 300).mutant('regen_no_touch_missing_check'))
+    obs.append(Ob('c_check_cache', dict(kf, NF=1, cached=[4]), 120).twin())
+    obs.append(Ob('c_check_cache', dict(kf, NF=1, cached=[4]), 300).mutant('regen_ignores_extra'))
+    obs.append(Ob('c_check_cache', dict(kf, NF=1, cached=[0]), 300).mutant('regen_min_of_inputs'))
+    obs.append(Ob('c_check_cache', dict(kf, NF=1, cached=[0]), 300).mutant('check_cache_replays_when_inputs_newer'))
+    obs.append(Ob('c_check_cache', dict(kf, NF=1, cached=[0]), 300).mutant('regen_no_touch_missing_check'))
     ia = Ob('i_inputs_agree', {}, 600, desc='saved input list == inputs of the regenerate rule '
                                               '(make and ninja, toolchain/mopack present or not)')
     obs += [ia, ia.twin(), ia.mutant('regen_saved_inputs_bootstrap_only')]
-    obs.append(Ob('c_check_cache', {'NF': 1, 'cached': [1]}, 300).mutant('regen_replay_drops_find_dirs'))
+    obs.append(Ob('c_check_cache', dict(kf, NF=1, cached=[1]), 300).mutant('regen_replay_drops_find_dirs'))
     for i1 in range(6):
         obs.append(Ob('k_cache_key', {'I1': i1, 'I3': not q}, 3000, desc='cache key, first '
                                                                           'component #%d' % i1))
     obs.append(Ob('k_cache_key', {'I1': 1}, 120).twin())
     obs.append(Ob('k_cache_key', {'I1': 1}, 300).mutant('glob_json_drops_type'))
     return obs
+
+
+def classify(ob, cex):
+    a = cex['args']
+    if ob.fn == 'c_check_cache' and (len(a) > 5 and a[5] or cex.get('kwargs', {}).get('newdir')):
+        return 'C08-F23'
+    return None
+
+
+def real_replay(ob, cex):
+    """new-directory counterexamples: the history mkdir / make / add file / make with the real
+    driver and the real make (findings/C08-F23-demo.py)"""
+    a = cex['args']
+    if not (ob.fn == 'c_check_cache' and (len(a) > 5 and a[5] or cex.get('kwargs', {}).get('newdir'))):
+        return None
+    import os
+    import subprocess
+    demo = os.path.join(os.path.dirname(os.path.dirname(os.path.dirname(os.path.abspath(__file__)))),
+                        'findings', 'C08-F23-demo.py')
+    r = subprocess.run(['/venv/bin/python', demo], capture_output=True, timeout=600)
+    out = r.stdout.decode(errors='replace')
+    return {'reproduced': r.returncode == 1 and 'VIOLATION' in out, 'detail': out[-1500:]}
